@@ -21,7 +21,7 @@ import json
 import math
 import os
 import re
-from concurrent.futures import ProcessPoolExecutor, ThreadPoolExecutor
+from concurrent.futures import ProcessPoolExecutor, ThreadPoolExecutor, as_completed
 from fractions import Fraction
 from pathlib import Path
 
@@ -342,8 +342,12 @@ def _work(texts):
         if len(samples) < 1 and x["hasB"] and x["mdd"] != 0:
             samples.append({"kind": "enumerated" if x["n"] <= 6 else "simulated", "length": x["n"],"series": [str(q) for q in x["v"][:12]], "interval_minutes": x["im"], "benchmark": [str(q) for q in x["b"][:12]],
                             "spec": {"mdd": str(x["mdd"]), "total": str(x["total"]), "annualised": f"{ann_str(x['ann'])}",
-                                     "vol2": str(x["vol2"]), "beta": str(x["beta"]) if x["betaDef"] else None}})
+                                     "vol2": _short(x["vol2"]), "beta": _short(x["beta"]) if x["betaDef"] else None}})
     return out.counts, out.info, out.calls, viol, keys, samples
+
+
+def _short(q: Fraction) -> str:
+    return str(q) if q.denominator < 10 ** 9 else f"{float(q):.15g}"
 
 
 def ann_str(a):
@@ -393,19 +397,27 @@ def run(chk: Check) -> int:
         for i in range(0, len(texts), chunk):
             futures.append(pool.submit(_work, texts[i:i + chunk]))
 
+    def tlc_run(*a, **k):
+        try:
+            return tlc.run(*a, **k)
+        except tlc.TlcError:     # one retry: a concurrent rebuild of spec/lib/classes makes a starting JVM fail transiently
+            time.sleep(5)
+            return tlc.run(*a, **k)
+
     def one_part(p):
         if p == "sim":
             # 3. longer series: TLC simulation (random symbols drawn by TLC, same invariants, same export); runs alongside the BFS parts
             per_worker = 2 if quick else 40
-            return p, tlc.run(SPEC, MC / "MC_Metrics_sim.cfg", chk.tmp, workers=12,
+            return p, tlc_run(SPEC, MC / "MC_Metrics_sim.cfg", chk.tmp, workers=12,
                               args=("-simulate", f"num={per_worker}", "-depth", "450", "-seed", str(chk.seed)),
                               timeout=900 if quick else 3000)
         cfg = _part_cfg(chk.tmp, base, *p)
-        return p, tlc.run(SPEC, cfg, chk.tmp, workers=3, timeout=1500 if quick else 3000)
+        return p, tlc_run(SPEC, cfg, chk.tmp, workers=3, timeout=1500 if quick else 3000)
 
     nsim = 0
     with ThreadPoolExecutor(max_workers=5) as tp:
-        for p, res in tp.map(one_part, ["sim"] + parts):
+        for fut in as_completed([tp.submit(one_part, p) for p in ["sim"] + parts]):
+            p, res = fut.result()
             if p == "sim":
                 chk.add_tlc(res, "MC_Metrics_sim.cfg(simulate)")
                 chk.spec_violation(res, "simulate")
@@ -426,6 +438,7 @@ def run(chk: Check) -> int:
     # 4. collect
     keys = set()
     kept = {}
+    allviol = []
     for f in futures:
         counts, info, calls, viol, ks, samples = f.result()
         for k, v in counts.items():
@@ -435,14 +448,13 @@ def run(chk: Check) -> int:
         chk.evaluations += calls
         chk.traces += len(ks)
         keys.update(k for k, nontrivial in ks if nontrivial)
-        for sig, what, text in viol:
-            chk.violation(sig, what, {"kind": "case", "tla": text})
+        allviol.extend(viol)
         for s in samples:
-            kept.setdefault(s["kind"], [])
-            if len(kept[s["kind"]]) < 3:
-                kept[s["kind"]].append(s)
-    for ss in kept.values():
-        for s in ss:
+            kept.setdefault(s["kind"], []).append(s)
+    for sig, what, text in sorted(allviol):          # deterministic whatever order the parts finished in
+        chk.violation(sig, what, {"kind": "case", "tla": text})
+    for kind in sorted(kept):
+        for s in sorted(kept[kind], key=lambda d: (d["length"], d["series"], d["benchmark"]))[:3]:
             chk.sample(s)
     pool.shutdown()
     phases["replay_tail"] = round(time.time() - t0, 1)
